@@ -212,7 +212,7 @@ def check_narrow(ctx, k, abits):
 
 
 VARIANTS = [("k_cav_vol_int", "val"), ("k_cav_vol_long", "val"), ("k_cav_ptr_int", "ptr"), ("k_cav_volptr_long", "ptr"), ("k_cav_struct", "struct"),
-            ("k_cav_arr", "arr"), ("k_cavr", "range"), ("k_cavs_unique", "string_u"), ("k_cavs_string", "string_s"), ("k_deny_copy", "deny"),
+            ("k_cav_arr", "arr"), ("k_cav_arr_cref", "arr"), ("k_cavr", "range"), ("k_cavs_unique", "string_u"), ("k_cavs_string", "string_s"), ("k_deny_copy", "deny"),
             ("k_cavs_vol_unique", "string_u"), ("k_cavs_cunique", "string_u"), ("k_cavs_vol_cunique", "string_u"), ("k_cavs_vol_string", "string_s"), ("k_cav_arr2d", "arr"), ("k_cavba_vol", "bufaddr"), ("k_cavr_vol", "range"), ("k_cavr_char", "range"), ("k_cav_volptr_struct", "struct")]
 
 
@@ -236,6 +236,18 @@ def check_seq(ctx, k, kind):
 
 
 def jobs(tier, seed):
+    return jobs_core(tier, seed) + jobs_bm(tier, seed)
+
+
+def jobs_bm(tier, seed):
+    # the snapshot a struct verifier receives carries pointer fields translated relative to the sandbox (BM: the example-based
+    # translation must be given an address inside the sandbox, not the application-side snapshot)
+    from specs import C08
+    return [Job("C09_BM_cav_struct", '#include "C08_bm.inc"\n', [dict(name="BM copy_and_verify of a struct with pointer fields", fn=C08.check_bm_vsh, kw=dict(k="k_bm_cav_vsh"))],
+                native=False, flags=["-D_GLIBCXX_EXTERN_TEMPLATE=0"])]
+
+
+def jobs_core(tier, seed):
     flags = ["-D_GLIBCXX_EXTERN_TEMPLATE=0"]
     src = '#include "verif_sandbox.hpp"\nusing S = B32;\n#include "C09_kernels.inc"\n'
     sb = 6 if tier == "quick" else 10
